@@ -23,7 +23,7 @@
        is also visible in a block (otherwise: C01_refuted_delete_skips_dead_head_sample).  That
        well-formed histories preserve dead_covered is NOT proved (dead_free is a decidable
        sufficient condition);
-     - MISSING OP: Restart.  A restart is assumed to re-establish the invariant and to preserve
+     - MISSING OPS: CompactPending (DB.Compact while an appender is open; assumed like Restart) and Restart.  A restart is assumed to re-establish the invariant and to preserve
        the set of visible samples (it does not always: the C01_refuted_restart lemmas); the tie checks
        every generated restart against the implementation instead. *)
 From Coq Require Import List ZArith Bool Lia.
